@@ -1,12 +1,12 @@
-(* Props/C02ext.v — C02: twenty-four further single-register load/store classes, each equal to the parametric specification of
+(* Props/C02ext.v — C02: twenty-nine further single-register load/store classes, each equal to the parametric specification of
    Spec/LoadStore.v (Spec/LoadStoreUnpriv.v for the unprivileged forms) with the emulator's MemU / MemU_unpriv as the
    accessor: the address used, the width, zero/sign extension, the UNKNOWN value of a misaligned access without unaligned
    support, base write-back only when the access succeeded, LDR pc (Thumb register form) branching to the loaded word.
-   Statements only; proofs in Proofs/LSProofs2.v and Proofs/LSProofs3.v. *)
+   Statements only; proofs in Proofs/LSProofs2.v, Proofs/LSProofs3.v and Proofs/LSProofs4.v (literal loads). *)
 From Coq Require Import ZArith Bool List.
 From ArmV Require Import Lib.PyZ Lib.Monad Lib.Machine Spec.Pseudocode Spec.Arch Spec.DPSem Spec.MachineView Spec.LoadStore Spec.LoadStoreUnpriv
   Spec.Hub Proofs.StateLemmas Proofs.CondProofs Proofs.GuardProofs Proofs.BankProofs Proofs.MachineOps Proofs.DPLemmas Proofs.MemProofs
-  Proofs.LSProofs Proofs.LSProofs2 Proofs.LSProofs3.
+  Proofs.LSProofs Proofs.LSProofs2 Proofs.LSProofs3 Proofs.LSProofs4.
 From Gen Require Import enums core exec.
 Import ListNotations.
 Open Scope Z_scope.
@@ -195,6 +195,32 @@ Theorem C02_Strt cfg instr add register_form post_index t n m shift_t shift_n im
          then rget s t else 0).
 Proof. exact (Strt_sem cfg instr add register_form post_index t n m shift_t shift_n imm32 s). Qed.
 Print Assumptions C02_Strt.
+Theorem C02_LdrbLiteral cfg instr add imm32 t s :
+  ictx cfg s -> cond_holds s -> iset_of s <> 3 -> 0 <= t <= 14 -> rd_ok cfg (ArmV6_mem_u_get cfg) s 1 ->
+  LdrbLiteral_execute cfg instr add imm32 t s = LOAD_lit (ArmV6_mem_u_get cfg) LByte s add imm32 t.
+Proof. exact (LdrbLiteral_sem cfg instr add imm32 t s). Qed.
+Print Assumptions C02_LdrbLiteral.
+Theorem C02_LdrsbLiteral cfg instr add imm32 t s :
+  ictx cfg s -> cond_holds s -> iset_of s <> 3 -> 0 <= t <= 14 -> rd_ok cfg (ArmV6_mem_u_get cfg) s 1 ->
+  LdrsbLiteral_execute cfg instr add imm32 t s = LOAD_lit (ArmV6_mem_u_get cfg) LSByte s add imm32 t.
+Proof. exact (LdrsbLiteral_sem cfg instr add imm32 t s). Qed.
+Print Assumptions C02_LdrsbLiteral.
+Theorem C02_LdrhLiteral cfg instr add imm32 t s :
+  ictx cfg s -> cond_holds s -> iset_of s <> 3 -> 0 <= t <= 14 -> rd_ok cfg (ArmV6_mem_u_get cfg) s 2 ->
+  LdrhLiteral_execute cfg instr add imm32 t s = LOAD_lit (ArmV6_mem_u_get cfg) LHalf s add imm32 t.
+Proof. exact (LdrhLiteral_sem cfg instr add imm32 t s). Qed.
+Print Assumptions C02_LdrhLiteral.
+Theorem C02_LdrshLiteral cfg instr add imm32 t s :
+  ictx cfg s -> cond_holds s -> iset_of s <> 3 -> 0 <= t <= 14 -> rd_ok cfg (ArmV6_mem_u_get cfg) s 2 ->
+  LdrshLiteral_execute cfg instr add imm32 t s = LOAD_lit (ArmV6_mem_u_get cfg) LSHalf s add imm32 t.
+Proof. exact (LdrshLiteral_sem cfg instr add imm32 t s). Qed.
+Print Assumptions C02_LdrshLiteral.
+Theorem C02_LdrLiteral cfg instr add imm32 t s :
+  ictx cfg s -> cond_holds s -> iset_of s <> 3 -> 0 <= t <= 15 -> rd_ok cfg (ArmV6_mem_u_get cfg) s 4 ->
+  LdrLiteral_execute cfg instr add imm32 t s =
+  LOAD_lit_word (ArmV6_mem_u_get cfg) (cfg_arch_version cfg) (cfg_jazelle_accepts_execution cfg) s add imm32 t.
+Proof. exact (LdrLiteral_sem cfg instr add imm32 t s). Qed.
+Print Assumptions C02_LdrLiteral.
 (* the memory hypotheses of the unprivileged forms hold on a flat map *)
 Theorem C02_rd_ok_flat_unpriv cfg s sz : flat cfg s -> ictx cfg s -> valid_size sz = true -> rd_ok cfg (ArmV6_mem_u_unpriv_get cfg) s sz.
 Proof. exact (flat_rd_ok_unpriv cfg s sz). Qed.
